@@ -15,12 +15,15 @@ def model(pat):
 
 
 def rstr(m, v):
-    if isinstance(v, ValRef):
-        v = v.v
-    if isinstance(v, Ref):
-        v = m.read_place(v.frame, v.place)
-    if isinstance(v, ValRef):
-        v = v.v
+    for _ in range(8):
+        if isinstance(v, ValRef):
+            v = v.v
+        elif isinstance(v, Ref):
+            v = m.read_place(v.frame, v.place)
+        elif isinstance(v, Enum) and v.name in ('Borrowed', 'Owned') and v.fields:
+            v = v.fields[0]          # Cow<str> / Cow<Path>
+        else:
+            break
     if not isinstance(v, RStr):
         raise Unsupported(f'expected string, got {v!r}')
     return v
